@@ -42,3 +42,5 @@ def run(ctx):
                           % (len(wcorr), nm, k, a[:300], b[:300], sc), no_input=True)
         from .. import foreignread   # FOREIGN-BUT-VALID layouts (SSND offset with chunks behind it, VOC text / repeat blocks, chunks around the audio ...) judged against the CONSTRUCTION
         foreignread.run(ctx, "C05")
+        from .. import seekmatrix    # (gapg) deterministic block-seek matrix: every block codec x container x channel count, read into block L, seek into the blocks around it
+        seekmatrix.run(ctx, "C05")
